@@ -92,6 +92,8 @@ class V:
         else:
             if s != 1:
                 tainted = True
+            if s < 0:
+                raise DefError("fractional power of a negative scale")
             if isinstance(s, Fraction):
                 rn = _iroot(s.numerator, e.denominator) if s > 0 else None
                 rd = _iroot(s.denominator, e.denominator) if s > 0 else None
@@ -522,7 +524,7 @@ class Reader:
                 pval, cu = self.lookup(ref)
                 sub = self.resolve(cu, _stack + (name,))
                 depth = max(depth, sub.depth)
-                f = V(sub.factor, {}, sub.tainted, sub.nops) * V(pval)
+                f = V(sub.factor, {}, sub.tainted or (e.denominator != 1 and not self.units[cu].is_base), sub.nops) * V(pval)
                 acc = acc * (f ** e)
                 for k, x in sub.root.items():
                     root[k] = root.get(k, 0) + x * e
@@ -541,7 +543,9 @@ class Reader:
             e = Fraction(e)
             pval, cu = self.lookup(s)
             sub = self.resolve(cu)
-            acc = acc * ((V(sub.factor, {}, sub.tainted, sub.nops) * V(pval)) ** e)
+            # pint evaluates scale ** e in floating point for every non-base unit when e is not an integer
+            taint = sub.tainted or (e.denominator != 1 and not (self.units[cu].is_base and pval == 1))
+            acc = acc * ((V(sub.factor, {}, taint, sub.nops) * V(pval)) ** e)
             for k, x in sub.root.items():
                 root[k] = root.get(k, 0) + x * e
             for k, x in sub.dim.items():
